@@ -5,6 +5,7 @@ CONSTANTS
   AgeWin = 2
   MAXV = 1000000000
   PragueFrom = 0
+  Base = 0
   MaxHeight = 3
   MaxTxPerBlock = 1
 INVARIANTS MInv
